@@ -2264,8 +2264,8 @@ class Power(Array):
         if _certainly_even(self.power):
             if not _certainly_even(newpower):
                 func = abs(func)
-        elif self.power.isconstant and (eval_once(self.power) % 2 == 0).any():
-            return # some, but not all, entries of the inner power are even
+        elif not self.power.isconstant or (eval_once(self.power) % 2 == 0).any():
+            return # some entries of the inner power are even, or may be: the sign cannot be restored after folding
         return Power(func, newpower)
 
     def _takediag(self, axis1, axis2):
